@@ -23,12 +23,16 @@ import (
 )
 
 type Header struct {
-	Hdr     bool                       `json:"hdr"`
-	Prop    string                     `json:"prop"`
-	Sources [][]Piece                  `json:"sources"` // index id-1
-	Ctxs    []json.RawMessage          `json:"ctxs"`    // index c-1
-	Loader  map[string]int             `json:"loader"`  // name -> source id
-	Extra   map[string]json.RawMessage `json:"-"`
+	Hdr     bool              `json:"hdr"`
+	Prop    string            `json:"prop"`
+	Sources [][]Piece         `json:"sources"` // index id-1
+	Ctxs    []json.RawMessage `json:"ctxs"`    // index c-1
+	Loader  map[string]int    `json:"loader"`  // name -> source id
+	Policy  *struct {
+		Filters   []string `json:"filters"`
+		Functions []string `json:"functions"`
+	} `json:"policy"`
+	Extra map[string]json.RawMessage `json:"-"`
 }
 
 func (h *Header) src(id int) string {
@@ -71,6 +75,9 @@ func newEngine(h *Header) *twig.Engine {
 		srcs[name] = h.src(id)
 	}
 	e.RegisterLoader(twig.NewArrayLoader(srcs))
+	if h.Policy != nil {
+		e.EnableSandbox(makePolicy(Cfg{AllowF: h.Policy.Filters, AllowFn: h.Policy.Functions}))
+	}
 	return e
 }
 
